@@ -19,6 +19,12 @@ WideKeys == {<<37, 60>>, <<164, 60>>, <<165, 188>>, <<165, 124>>, <<165, 61>>, <
 WideQueries == {<<165, 60>>, <<165>>, <<37>>, <<165, 188>>, <<165, 195>>, <<>>, <<164, 0, 9>>}
 WideConfigs == {<<2, 0, {}>>, <<3, 0, {}>>}
 
+\* focus: a tiny universe (two keys in bucket 1, one in bucket 2) whose whole transition graph is small
+\* enough to execute EVERY model transition on the real cache (edge cover)
+FocusKeys == {<<229>>, <<230>>, <<133>>}
+FocusQueries == {<<165>>, <<229>>, <<37>>}
+FocusConfigs == {<<2, 0, {}>>, <<3, 0, {}>>}
+
 \* 32-byte locus (the size DHTNode uses): 257 buckets; keys by flipped bit + salted tail
 L32 == [i \in 1..32 |-> (i * 37 + 11) % 256]
 Mask(bit) == CASE bit % 8 = 0 -> 128 [] bit % 8 = 1 -> 64 [] bit % 8 = 2 -> 32 [] bit % 8 = 3 -> 16
